@@ -8,6 +8,8 @@ import random
 import struct
 import warnings
 
+import numpy as np
+
 from .. import env, gen, refcodec as rc
 
 env.bootstrap()
@@ -194,6 +196,21 @@ def check_pair(rec, relation, a, b, want_equal, kind, name, case):
                       f"{name}: a == b is {got}, content is {'equal' if want_equal else 'different'}", case)
 
 
+def _norm0(x):
+    """-0.0 -> +0.0 throughout: the two zeros are the same number, a change of a zero's sign is not a change of content"""
+    if isinstance(x, float):
+        return 0.0 if x == 0 else x
+    if isinstance(x, dict):
+        return {k: _norm0(v) for k, v in x.items()}
+    if isinstance(x, (list, tuple)):
+        return [_norm0(v) for v in x]
+    return x
+
+
+def same_numbers(a, b):
+    return rc.spec_diff(_norm0(a), _norm0(b)) is None
+
+
 def classify_equal_case(spec):
     kind = spec["t"]
     tags = []
@@ -238,7 +255,7 @@ def shard_blocks(desc, rec):
             if r is not None:
                 ename, spec2 = r
                 # only edits whose effect is unambiguous under any float tolerance are judged
-                if rc.spec_diff(spec, spec2) and ename in ("open-gap", "fill-gap", "label", "optical-name", "frequency",
+                if not same_numbers(spec, spec2) and ename in ("open-gap", "fill-gap", "label", "optical-name", "frequency",
                                                            "append-item", "cell-clear"):
                     ecase = {"driver": "equality", "spec": spec, "variant": variant, "edit": ename}
                     check_pair(rec, "edited-in-place", a2, b, False, kind, f"edited({ename})", ecase)
@@ -248,7 +265,12 @@ def shard_blocks(desc, rec):
                         check_pair(rec, "edited-in-place", a2, b3, True, kind, f"edited-then-roundtrip({ename})", ecase)
                     except Exception:
                         rec.count("c14:edited-roundtrip-failed")
+        if kind in ("data3D", "emg", "force3D", "platData") and lib.nitems(spec) > 0 and i % 3 == 0:
+            shared_buffer_pairs(rec, rng, kind, spec, case)
         for name, ms in mutations(rng, spec):
+            if same_numbers(spec, ms):
+                rec.count("c14:mutant-differs-only-in-the-sign-of-zeros(not judged)")
+                continue
             try:
                 mb = lib.build(ms, variant)
             except Exception as e:
@@ -263,6 +285,43 @@ def shard_blocks(desc, rec):
                 check_pair(rec, "mutated", b, mb2, False, kind, name + "(decoded)", mcase)
             except Exception:
                 rec.count("c14:mutant-roundtrip-failed")
+
+
+def shared_buffer_pairs(rec, rng, kind, spec, case):
+    """two blocks whose sample arrays are *views of one buffer* (columns of one recording, overlapping windows of
+    one long signal): different views hold different content, the same view the same"""
+    key = lib.ITEMS_KEY[kind]
+    n = spec.get("nFrames", spec.get("nSamples"))
+    w = {"data3D": 3, "emg": 1, "force3D": 9, "platData": 6}[kind]
+    if n < 1:
+        return
+    # one buffer holding two distinct, fully present recordings: rows 0..n-1 and 1..n (overlapping windows)
+    buf = np.empty((n + 1, w), dtype=np.float32)
+    buf[:] = np.arange(1, (n + 1) * w + 1, dtype=np.float32).reshape(n + 1, w) * 1.5
+    wa, wb = buf[:-1], buf[1:]
+
+    def block_with(view):
+        s1 = {**spec, key: [dict(it) for it in spec[key]]}
+        b = lib.build(s1, {})
+        it = (list(b.tracks) if kind in ("data3D", "force3D") else list(b) if kind == "emg" else list(b.platforms))[0]
+        if kind == "data3D":
+            it.data = view
+        elif kind == "emg":
+            it.data = view[:, 0]
+        elif kind == "force3D":
+            it.application_point, it.force, it.torque = view[:, 0:3], view[:, 3:6], view[:, 6:9]
+        else:
+            it.application_point, it.force, it.torque = view[:, 0:2], view[:, 2:5], view[:, 5]
+        return b
+    try:
+        a1, a2, b1 = block_with(wa), block_with(wa), block_with(wb)
+    except Exception as e:
+        rec.count(f"c14:shared-buffer-not-constructible:{type(e).__name__}")
+        return
+    c2 = dict(case, shared_buffer=True)
+    check_pair(rec, "shared-buffer", a1, a2, True, kind, "same-view-of-one-buffer", c2)
+    check_pair(rec, "shared-buffer", a1, b1, False, kind, "overlapping-views-of-one-buffer", c2)
+    check_pair(rec, "shared-buffer", b1, a1, False, kind, "overlapping-views-of-one-buffer(reversed)", c2)
 
 
 def shard_files(desc, rec):
@@ -299,7 +358,7 @@ def shard_files(desc, rec):
         cmp(True, "same-blocks")
         if specs:
             j = rng.randrange(len(specs))
-            muts = list(mutations(rng, specs[j]))
+            muts = [(n_, m_) for n_, m_ in mutations(rng, specs[j]) if not same_numbers(specs[j], m_)]
             if muts:
                 name, ms = rng.choice(muts)
                 try:
@@ -325,6 +384,17 @@ def shard_files(desc, rec):
             for name, n2, ver, want in variants:
                 open(pb, "wb").write(rc.encode_container(n2, blocks, ver, hdates=(5, 6, 7), free_comment="other"))
                 cmp(want, name)
+        # same content, different don't-care bytes (reserved words, padding, bytes after string terminators)
+        if i % 2 == 1:
+            sd = rng.getrandbits(32)
+            nn = rng.choice([2, 5, 14])
+            nl = rng.randint(1, min(nn, 5))
+            clean_, _m1 = C.make_initial(random.Random(sd), nn, nl, 0.0, False)
+            dirty_, _m2 = C.make_initial(random.Random(sd), nn, nl, 0.0, True)
+            open(pa, "wb").write(clean_)
+            open(pb, "wb").write(dirty_)
+            rec.count("c14:files:dontcare-bytes-differing", sum(1 for x_, y_ in zip(clean_, dirty_) if x_ != y_))
+            cmp(True, "same-content-other-dontcare-bytes")
         # a table with an unused slot between live blocks: blocks behind the hole count too
         if len(specs) >= 2 and i % 2 == 0:
             def hole_file(path, ss, hole_at):
@@ -342,7 +412,7 @@ def shard_files(desc, rec):
             hole_file(pb, specs, hole_at)
             cmp(True, "same-blocks-around-a-hole")
             j = rng.randrange(len(specs))
-            muts = [(n_, m_) for n_, m_ in mutations(rng, specs[j])]
+            muts = [(n_, m_) for n_, m_ in mutations(rng, specs[j]) if not same_numbers(specs[j], m_)]
             ok_m = None
             for n_, m_ in muts:
                 try:
